@@ -543,7 +543,8 @@ class NetSim:
             self.log("frontend_drop", d.id)
             return True
         p = pkts[0]
-        if self.cfg["vn"] and not self.vn_done:
+        if self.cfg["vn"] and p.version not in self.s_cfg.supported_versions:
+            # stateless, like QuicServer: every Initial in a version the server does not speak is answered
             self.vn_done = True
             from aioquic.quic.packet import encode_quic_version_negotiation
 
